@@ -1,36 +1,101 @@
-"""The generated "kitchen-sink" database for C11: every construct of the parser that the shipped somersault
-example lacks, in 4 ODX documents (2 x .odx-d, 1 x .odx-cs, 1 x .odx-c).
+"""The generated "kitchen-sink" database for C11: every construct the parser reads that the shipped
+somersault example lacks, in 4 ODX documents (2 x .odx-d, 1 x .odx-cs, 1 x .odx-c) + 3 auxiliary files.
+
+The database is a *core* (always present) plus named **features**; `members(off)` builds the archive
+members with the features in `off` left out.  C11 needs that because a single construct that makes the
+writer (or the re-load) raise would otherwise hide every other construct: the check first finds the
+features that block the round trip in isolation (each is a finding), and perturbs the database built from
+all the others.
 
 Built from `spec` dicts rendered by odxmodel.emit; constructs the spec language has no word for (admin /
 company data, SDGs, state charts, sub-components, libraries, diag variables, dyn-defined spec, variant
-patterns, audiences, job parameters, ...) are raw XML built with emit.X/T and placed through the
-`*_xml` hooks of emit.layer or injected after rendering.  No odxtools import.
+patterns, audiences, job parameters, ...) are raw XML built with emit.X/T and placed through the `*_xml`
+hooks of emit.layer or injected after rendering.  No odxtools import.
 """
 from __future__ import annotations
 
 import re
-from typing import Any, Dict, List
+from typing import Any, Dict, Iterable, List, Optional, Set, Tuple
 
 from odxmodel.emit import T, X, container, comparam_spec, comparam_subset, names
 
 B = "ksbase"  # the layer that carries most constructs
+
+# feature -> the (class.field) of the parser model that the feature exercises (used in finding keys)
+FEATURES: Dict[str, str] = {}
+# feature -> features it needs
+DEPS: Dict[str, Tuple[str, ...]] = {
+    "row_refs": ("state_charts", "additional_audiences", "table"),
+    "svc_state_refs": ("state_charts",),
+    "svc_audience": ("additional_audiences",),
+    "job_audience": ("additional_audiences", "job"),
+    "job_params": ("job",), "job_attrs": ("job",), "job_sdgs": ("job",), "job_progcode_extras": ("job", "libraries"),
+    "subc_param_conn": ("sub_components",), "subc_row_conn": ("sub_components", "table"),
+    "subc_env_conn": ("sub_components", "env_data"), "subc_dtc_conn": ("sub_components", "dtc_dop"),
+    "subc_patterns": ("sub_components",), "external_access_method": ("state_charts",),
+    "dtc_linked": ("dtc_dop",), "dtc_ref": ("dtc_dop",), "dtc_attrs": ("dtc_dop",), "dtc_sdgs": ("dtc_dop",), "dtc_dop_attrs": ("dtc_dop",),
+    "env_data": ("dtc_dop",), "emfield_env": ("env_data", "emfield"), "envdata_attrs": ("env_data",),
+    "mux_snref_case": ("mux",), "mux_snref_default": ("mux",), "mux_attrs": ("mux",), "mux_case_nostruct": ("mux",),
+    "table_labels": ("table",), "table_semantic": ("table",), "row_struct_snref": ("table",), "row_dop_snref": ("table",),
+    "table_row_ref": ("table",), "table_connectors": ("table",), "table_sdgs": ("table",), "table_admin": ("table",), "table_oid": ("table",),
+    "row_attrs": ("table",), "row_sdgs": ("table",), "row_admin": ("table",), "row_names": ("table",),
+    "p_tablekey": ("table",), "p_tablekey_row": ("table",), "p_tablekey_snref": ("table",), "p_tablestruct_snref": ("table", "p_tablekey_snref"),
+    "p_tableentry": ("table",), "dyn_spec_base": ("table",), "dyn_spec_ecu": ("table",), "dv_table_snref": ("dv_base", "table"),
+    "dv_comm_ref": ("dv_base",), "dv_admin": ("dv_base",), "dv_sdgs": ("dv_base",), "dv_attrs": ("dv_base",), "dv_sw_variables": ("dv_base",),
+    "dct_plen": ("p_lengthkey",), "eopfield_snref": ("eopfield",), "field_attrs": ("sfield", "dlfield", "eopfield", "emfield"),
+    "bvp_snpathref": ("bv_pattern", "mux"), "evp_snpathref": ("ev_patterns", "mux"),
+    "cross_doc_dop": ("import_ref",), "dop_unit_ref": ("unit_spec", "compu_linear"), "dop_internal_constr": ("compu_linear",),
+    "dop_phys_constr": ("compu_linear",), "unit_groups": ("unit_spec",), "unitspec_sdgs_layer": ("unit_spec",),
+    "unitspec_sdgs_subset": ("cs_unit_spec",), "compu_default_value": ("compu_texttable",),
+}
+
+
+class Sel:
+    """Feature selection. `on(name, label)` registers the feature and tells whether it is enabled."""
+
+    def __init__(self, off: Iterable[str] = ()) -> None:
+        self.off: Set[str] = set(off)
+
+    def on(self, name: str, label: str = "") -> bool:
+        if label:
+            FEATURES.setdefault(name, label)
+        if name in self.off:
+            return False
+        return all(self.on(d) for d in DEPS.get(name, ()))
+
+    def opt(self, name: str, label: str, xml: str) -> str:
+        return xml if self.on(name, label) else ""
+
+
+def closure(name: str) -> Set[str]:
+    out = {name}
+    for d in DEPS.get(name, ()):
+        out |= closure(d)
+    return out
+
+
+def all_features() -> Dict[str, str]:
+    """{feature: label} in definition order (builds the full database once to collect them)."""
+    if not FEATURES:
+        members(())
+    return dict(FEATURES)
 
 
 # ---------------------------------------------------------------------------------------------
 # raw XML helpers
 # ---------------------------------------------------------------------------------------------
 def sdgs(tag: str) -> str:
-    """SDGS with a caption-by-value group, a nested group and SDs with SI/TI."""
+    """SDGS with a caption-by-value group, a nested group and SDs with SI/TI, and a caption-by-reference group."""
     return X("SDGS",
-             X("SDG", X("SDG-CAPTION", names(tag + "_cap", "caption of " + tag, "caption desc"), ID=tag + ".cap"),
+             X("SDG", X("SDG-CAPTION", names(tag.replace(".", "_") + "_cap", "caption of " + tag, "caption desc"), ID=tag + ".cap"),
                X("SD", "plain value", SI="si1", TI="ti1"), X("SDG", X("SD", "nested"), SI="inner"), X("SD", "v2"), SI="outer"),
              X("SDG", X("SDG-CAPTION-REF", ID_REF=tag + ".cap"), X("SD", "by ref")))
 
 
-def admin_data(cd: str, tm: str) -> str:
+def admin_data(cd: str, tm: str, s: Optional["Sel"] = None) -> str:
     return X("ADMIN-DATA", T("LANGUAGE", "en-UK"),
              X("COMPANY-DOC-INFOS", X("COMPANY-DOC-INFO", X("COMPANY-DATA-REF", ID_REF=cd), X("TEAM-MEMBER-REF", ID_REF=tm),
-                                      T("DOC-LABEL", "label"), sdgs(cd + ".cdi"))),
+                                      T("DOC-LABEL", "label"), s.opt("cdi_sdgs", "CompanyDocInfo.sdgs", sdgs(cd + ".cdi")) if s else "")),
              X("DOC-REVISIONS", X("DOC-REVISION", X("TEAM-MEMBER-REF", ID_REF=tm), T("REVISION-LABEL", "1.0"), T("STATE", "draft"),
                                   T("DATE", "1926-07-18T11:11:11+01:00"), T("TOOL", "odxtools"),
                                   X("COMPANY-REVISION-INFOS", X("COMPANY-REVISION-INFO", X("COMPANY-DATA-REF", ID_REF=cd),
@@ -39,37 +104,41 @@ def admin_data(cd: str, tm: str) -> str:
                                     X("MODIFICATION", T("CHANGE", "second change"))))))
 
 
-def company_datas(prefix: str) -> str:
+def company_datas(prefix: str, s: Optional["Sel"] = None) -> str:
     cd = prefix + ".CD"
+    csi = ""
+    if s is not None and s.on("company_specific_info", "CompanyData.company_specific_info"):
+        csi = X("COMPANY-SPECIFIC-INFO",
+                X("RELATED-DOCS", X("RELATED-DOC", X("XDOC", names("xdoc1", "X doc"), T("NUMBER", "1"), T("STATE", "ok"),
+                                                    T("DATE", "2020-01-01"), T("PUBLISHER", "pub"), T("URL", "http://x.example/a"),
+                                                    T("POSITION", "p. 7")), X("DESC", T("p", "related doc desc")))),
+                s.opt("csi_sdgs", "CompanySpecificInfo.sdgs", sdgs(cd + ".csi")))
     return X("COMPANY-DATAS",
              X("COMPANY-DATA", names("acme", "ACME Corp", "a company"), X("ROLES", T("ROLE", "maker"), T("ROLE", "tester")),
                X("TEAM-MEMBERS", X("TEAM-MEMBER", names("doggy", "Doggy"), X("ROLES", T("ROLE", "gymnast")), T("DEPARTMENT", "sport"),
                                    T("ADDRESS", "Some Street 1"), T("ZIP", "12345"), T("CITY", "Town"), T("PHONE", "+0 1234"),
                                    T("FAX", "+0 1235"), T("EMAIL", "doggy@acme.example"), ID=cd + ".doggy", OID="oid.doggy")),
-               X("COMPANY-SPECIFIC-INFO",
-                 X("RELATED-DOCS", X("RELATED-DOC", X("XDOC", names("xdoc1", "X doc"), T("NUMBER", "1"), T("STATE", "ok"),
-                                                     T("DATE", "2020-01-01"), T("PUBLISHER", "pub"), T("URL", "http://x.example/a"),
-                                                     T("POSITION", "p. 7")), X("DESC", T("p", "related doc desc")))),
-                 sdgs(cd + ".csi")), ID=cd, OID="oid.acme"))
+               csi, ID=cd, OID="oid.acme"))
 
 
-def desc(text: str, ti: str = "en", ext: bool = True) -> str:
+def desc(text: str, ti: Optional[str] = "en", ext: bool = True) -> str:
     return X("DESC", T("p", text), X("EXTERNAL-DOCS", X("EXTERNAL-DOC", "ext doc text", HREF="http://doc.example/1"),
                                       X("EXTERNAL-DOC", HREF="http://doc.example/2")) if ext else "", TI=ti)
 
 
-def unit_spec(prefix: str) -> str:
+def unit_spec(prefix: str, s: "Sel", where: str) -> str:
     return X("UNIT-SPEC",
-             X("UNIT-GROUPS", X("UNIT-GROUP", names("metric", "Metric"), T("CATEGORY", "COUNTRY"),
-                                X("UNIT-REFS", X("UNIT-REF", ID_REF=prefix + ".unit.m"), X("UNIT-REF", ID_REF=prefix + ".unit.km")),
-                                OID="oid.ug")),
+             s.opt("unit_groups", "UnitSpec.unit_groups",
+                   X("UNIT-GROUPS", X("UNIT-GROUP", names("metric", "Metric"), T("CATEGORY", "COUNTRY"),
+                                      X("UNIT-REFS", X("UNIT-REF", ID_REF=prefix + ".unit.m"), X("UNIT-REF", ID_REF=prefix + ".unit.km")),
+                                      OID="oid.ug"))),
              X("UNITS", X("UNIT", names("m", "metre"), T("DISPLAY-NAME", "m"), T("FACTOR-SI-TO-UNIT", 1), T("OFFSET-SI-TO-UNIT", 0),
                           X("PHYSICAL-DIMENSION-REF", ID_REF=prefix + ".pd.len"), ID=prefix + ".unit.m", OID="oid.m"),
                X("UNIT", names("km"), T("DISPLAY-NAME", "km"), T("FACTOR-SI-TO-UNIT", 0.001), ID=prefix + ".unit.km")),
              X("PHYSICAL-DIMENSIONS", X("PHYSICAL-DIMENSION", names("len", "length"), T("LENGTH-EXP", 1), T("MASS-EXP", 2), T("TIME-EXP", -1),
                                         T("CURRENT-EXP", 3), T("TEMPERATURE-EXP", 4), T("MOLAR-AMOUNT-EXP", 5), T("LUMINOUS-INTENSITY-EXP", 6),
                                         ID=prefix + ".pd.len", OID="oid.len")),
-             sdgs(prefix + ".us"))
+             s.opt("unitspec_sdgs_" + where, "UnitSpec.sdgs", sdgs(prefix + ".us")))
 
 
 def audience(layer: str) -> str:
@@ -78,13 +147,14 @@ def audience(layer: str) -> str:
              IS_SUPPLIER="true", IS_DEVELOPMENT="false", IS_MANUFACTURING="true", IS_AFTERSALES="false", IS_AFTERMARKET="true")
 
 
-def state_charts(layer: str) -> str:
+def state_charts(layer: str, s: "Sel") -> str:
     p = layer + ".SC"
     return X("STATE-CHARTS",
              X("STATE-CHART", names("mood", "Mood", "state chart desc"), T("SEMANTIC", "SESSION"),
                X("STATE-TRANSITIONS",
                  X("STATE-TRANSITION", names("cheer", "cheer up"), X("SOURCE-SNREF", SHORT_NAME="grumpy"), X("TARGET-SNREF", SHORT_NAME="happy"),
-                   X("EXTERNAL-ACCESS-METHOD", names("eam", "external method"), T("METHOD", "do it"), ID=p + ".cheer.eam", OID="oid.eam"),
+                   s.opt("external_access_method", "StateTransition.external_access_method",
+                         X("EXTERNAL-ACCESS-METHOD", names("eam", "external method"), T("METHOD", "do it"), ID=p + ".cheer.eam", OID="oid.eam")),
                    ID=p + ".cheer", OID="oid.cheer"),
                  X("STATE-TRANSITION", names("annoy"), X("SOURCE-SNREF", SHORT_NAME="happy"), X("TARGET-SNREF", SHORT_NAME="grumpy"), ID=p + ".annoy")),
                X("START-STATE-SNREF", SHORT_NAME="grumpy"),
@@ -102,37 +172,48 @@ def libraries(layer: str) -> str:
                            T("SYNTAX", "JAR"), T("REVISION", "1.2.3"), T("ENTRYPOINT", "main"), ID=layer + ".LIB.lib1", OID="oid.lib1"))
 
 
-def sub_components(layer: str) -> str:
+def sub_components(layer: str, s: "Sel") -> str:
     return X("SUB-COMPONENTS",
              X("SUB-COMPONENT", names("subc", "Sub component", "subc desc"),
-               X("SUB-COMPONENT-PATTERNS", X("SUB-COMPONENT-PATTERN", X("MATCHING-PARAMETERS", X(
-                   "MATCHING-PARAMETER", T("EXPECTED-VALUE", "7"), X("DIAG-COMM-SNREF", SHORT_NAME="svc_all"), X("OUT-PARAM-IF-SNREF", SHORT_NAME="echo"))))),
-               X("SUB-COMPONENT-PARAM-CONNECTORS", X("SUB-COMPONENT-PARAM-CONNECTOR", names("spc", "param connector"),
-                                                     X("DIAG-COMM-SNREF", SHORT_NAME="svc_all"),
-                                                     X("OUT-PARAM-IF-REFS", X("OUT-PARAM-IF-SNREF", SHORT_NAME="echo")),
-                                                     X("IN-PARAM-IF-REFS", X("IN-PARAM-IF-SNREF", SHORT_NAME="v_u8")),
-                                                     ID=layer + ".SUBC.spc", OID="oid.spc")),
-               X("TABLE-ROW-CONNECTORS", X("TABLE-ROW-CONNECTOR", names("trc", "row connector"), X("TABLE-REF", ID_REF=layer + ".tab"),
-                                           X("TABLE-ROW-SNREF", SHORT_NAME="r1"))),
-               X("ENV-DATA-CONNECTORS", X("ENV-DATA-CONNECTOR", names("edc", "env connector"), X("ENV-DATA-DESC-REF", ID_REF=layer + ".envdesc"),
-                                          X("ENV-DATA-SNREF", SHORT_NAME="env_all"))),
-               X("DTC-CONNECTORS", X("DTC-CONNECTOR", names("dtcc", "dtc connector"), X("DTC-DOP-REF", ID_REF=layer + ".dtcs"),
-                                     X("DTC-SNREF", SHORT_NAME="d1"))),
+               s.opt("subc_patterns", "SubComponent.<SUB-COMPONENT-PATTERNS>",
+                     X("SUB-COMPONENT-PATTERNS", X("SUB-COMPONENT-PATTERN", X("MATCHING-PARAMETERS", X(
+                         "MATCHING-PARAMETER", T("EXPECTED-VALUE", "7"), X("DIAG-COMM-SNREF", SHORT_NAME="svc_all"), X("OUT-PARAM-IF-SNREF", SHORT_NAME="echo")))))),
+               s.opt("subc_param_conn", "SubComponent.sub_component_param_connectors",
+                     X("SUB-COMPONENT-PARAM-CONNECTORS", X("SUB-COMPONENT-PARAM-CONNECTOR", names("spc", "param connector"),
+                                                           X("DIAG-COMM-SNREF", SHORT_NAME="svc_all"),
+                                                           X("OUT-PARAM-IF-REFS", X("OUT-PARAM-IF-SNREF", SHORT_NAME="echo")),
+                                                           X("IN-PARAM-IF-REFS", X("IN-PARAM-IF-SNREF", SHORT_NAME="v_u8")),
+                                                           ID=layer + ".SUBC.spc", OID="oid.spc"))),
+               s.opt("subc_row_conn", "SubComponent.table_row_connectors",
+                     X("TABLE-ROW-CONNECTORS", X("TABLE-ROW-CONNECTOR", names("trc", "row connector"), X("TABLE-REF", ID_REF=layer + ".tab"),
+                                                 X("TABLE-ROW-SNREF", SHORT_NAME="r1")))),
+               s.opt("subc_env_conn", "SubComponent.env_data_connectors",
+                     X("ENV-DATA-CONNECTORS", X("ENV-DATA-CONNECTOR", names("edc", "env connector"), X("ENV-DATA-DESC-REF", ID_REF=layer + ".envdesc"),
+                                                X("ENV-DATA-SNREF", SHORT_NAME="env_all")))),
+               s.opt("subc_dtc_conn", "SubComponent.dtc_connectors",
+                     X("DTC-CONNECTORS", X("DTC-CONNECTOR", names("dtcc", "dtc connector"), X("DTC-DOP-REF", ID_REF=layer + ".dtcs"),
+                                           X("DTC-SNREF", SHORT_NAME="d1")))),
                ID=layer + ".SUBC.subc", OID="oid.subc", SEMANTIC="FUNCTION"))
 
 
-def diag_variables(layer: str, table: bool) -> str:
+def diag_variables(layer: str, s: "Sel", rich: bool, svc: str) -> str:
+    """rich: the variable of the base variant carries every optional part (each its own feature)."""
+    o = (lambda f, lab, xml: s.opt(f, lab, xml)) if rich else (lambda f, lab, xml: "")
+    attrs: Dict[str, Any] = dict(ID=layer + ".DV.dv1")
+    if rich and s.on("dv_attrs", "DiagVariable.is_read_before_write_raw"):
+        attrs.update(OID="oid.dv1", IS_READ_BEFORE_WRITE="true")
     return X("DIAG-VARIABLES",
-             X("DIAG-VARIABLE", names("dv1", "Diag variable", "dv desc"), admin_data(layer + ".CD", layer + ".CD.doggy") if table else "",
-               X("SW-VARIABLES", X("SW-VARIABLE", names("swv", "software variable", "swv desc"), T("ORIGIN", "somewhere"), OID="oid.swv")),
+             X("DIAG-VARIABLE", names("dv1", "Diag variable", "dv desc"),
+               o("dv_admin", "DiagVariable.admin_data", admin_data("KS.CD", "KS.CD.doggy")),
+               o("dv_sw_variables", "DiagVariable.sw_variables",
+                 X("SW-VARIABLES", X("SW-VARIABLE", names("swv", "software variable", "swv desc"), T("ORIGIN", "somewhere"), OID="oid.swv"))),
                X("COMM-RELATIONS",
                  X("COMM-RELATION", X("DESC", T("p", "relation desc")), T("RELATION-TYPE", "READ"),
-                   X("DIAG-COMM-REF", ID_REF=layer + ".svc_all") if table else X("DIAG-COMM-SNREF", SHORT_NAME="svc_fg"),
-                   X("OUT-PARAM-IF-SNREF", SHORT_NAME="echo") if table else "", VALUE_TYPE="CURRENT"),
-                 X("COMM-RELATION", T("RELATION-TYPE", "WRITE"), X("DIAG-COMM-SNREF", SHORT_NAME="svc_all" if table else "svc_fg"),
-                   X("IN-PARAM-IF-SNREF", SHORT_NAME="v_u8") if table else "")),
-               X("SNREF-TO-TABLEROW", X("TABLE-SNREF", SHORT_NAME="tab"), X("TABLE-ROW-SNREF", SHORT_NAME="r1")) if table else "",
-               sdgs(layer + ".dv1"), ID=layer + ".DV.dv1", OID="oid.dv1", IS_READ_BEFORE_WRITE="true"),
+                   X("DIAG-COMM-REF", ID_REF=layer + "." + svc) if (rich and s.on("dv_comm_ref", "CommRelation.diag_comm_ref")) else X("DIAG-COMM-SNREF", SHORT_NAME=svc),
+                   VALUE_TYPE="CURRENT"),
+                 X("COMM-RELATION", T("RELATION-TYPE", "WRITE"), X("DIAG-COMM-SNREF", SHORT_NAME=svc))),
+               o("dv_table_snref", "DiagVariable.table_snref", X("SNREF-TO-TABLEROW", X("TABLE-SNREF", SHORT_NAME="tab"), X("TABLE-ROW-SNREF", SHORT_NAME="r1"))),
+               o("dv_sdgs", "DiagVariable.sdgs", sdgs(layer + ".dv1")), **attrs),
              X("DIAG-VARIABLE", names("dv2"), ID=layer + ".DV.dv2"))
 
 
@@ -143,7 +224,7 @@ def variable_groups(layer: str) -> str:
     return X("VARIABLE-GROUPS", X("VARIABLE-GROUP", names("vg1", "Variable group", "vg desc"), ID=layer + ".VG.vg1", OID="oid.vg1"))
 
 
-def dyn_defined_spec(layer: str, sn_table: str = "tab2") -> str:
+def dyn_defined_spec(layer: str, sn_table: str) -> str:
     """Only the SNREF forms: DynIdDefModeInfo.from_et raises UnboundLocalError unless all three *-SNREF elements are
     present (parser defect outside C11, see REPORT), so the *-REF forms cannot be loaded."""
     return X("DYN-DEFINED-SPEC", X("DYN-ID-DEF-MODE-INFOS",
@@ -167,32 +248,40 @@ def matching_parameter(tag: str, value: str, path: bool, base: bool) -> str:
              T("USE-PHYSICAL-ADDRESSING", "false") if base else "")
 
 
-def base_variant_pattern() -> str:
+def base_variant_pattern(s: "Sel") -> str:
     return X("BASE-VARIANT-PATTERN", X("MATCHING-BASE-VARIANT-PARAMETERS",
                                        matching_parameter("MATCHING-BASE-VARIANT-PARAMETER", "7", False, True),
-                                       matching_parameter("MATCHING-BASE-VARIANT-PARAMETER", "8", True, False)))
+                                       s.opt("bvp_snpathref", "MatchingBaseVariantParameter.out_param_if_snpathref",
+                                             matching_parameter("MATCHING-BASE-VARIANT-PARAMETER", "8", True, False))))
 
 
-def ecu_variant_patterns() -> str:
+def ecu_variant_patterns(s: "Sel") -> str:
     return X("ECU-VARIANT-PATTERNS",
              X("ECU-VARIANT-PATTERN", X("MATCHING-PARAMETERS", matching_parameter("MATCHING-PARAMETER", "1", False, False),
-                                        matching_parameter("MATCHING-PARAMETER", "2", True, False))),
+                                        s.opt("evp_snpathref", "MatchingParameter.out_param_if_snpathref",
+                                              matching_parameter("MATCHING-PARAMETER", "2", True, False)))),
              X("ECU-VARIANT-PATTERN", X("MATCHING-PARAMETERS", matching_parameter("MATCHING-PARAMETER", "3", False, False))))
 
 
-def service_extras(layer: str) -> str:
+def service_extras(layer: str, s: "Sel") -> str:
     """Sub-elements of DIAG-SERVICE the spec language has no word for (placed via the audience_xml hook)."""
-    return (admin_data(layer + ".CD", layer + ".CD.doggy") + sdgs(layer + ".svc_all") + audience(layer) +
-            X("PROTOCOL-SNREFS", X("PROTOCOL-SNREF", SHORT_NAME="ksproto")) +
-            X("RELATED-DIAG-COMM-REFS", X("RELATED-DIAG-COMM-REF", T("RELATION-TYPE", "follow-up"), ID_REF=layer + ".svc_min")) +
-            X("PRE-CONDITION-STATE-REFS", X("PRE-CONDITION-STATE-REF", ID_REF=layer + ".SC.grumpy")) +
-            X("STATE-TRANSITION-REFS", X("STATE-TRANSITION-REF", ID_REF=layer + ".SC.cheer")) +
-            X("COMPARAM-REFS", X("COMPARAM-REF", T("SIMPLE-VALUE", "17"), X("DESC", T("p", "svc comparam")), X("PROTOCOL-SNREF", SHORT_NAME="ksproto"),
-                                 ID_REF="KSCS.cp_simple", DOCREF="KSCS", DOCTYPE="COMPARAM-SUBSET")) +
-            X("POS-RESPONSE-SUPPRESSABLE", T("BITMASK", "128"), X("CODED-CONST-SNREF", SHORT_NAME="sid")))
+    return (s.opt("svc_admin", "DiagService.admin_data", admin_data("KS.CD", "KS.CD.doggy")) +
+            s.opt("svc_sdgs", "DiagService.sdgs", sdgs(layer + ".svc_all")) +
+            s.opt("svc_audience", "DiagService.audience", audience(layer)) +
+            s.opt("svc_protocol_snrefs", "DiagService.protocol_snrefs", X("PROTOCOL-SNREFS", X("PROTOCOL-SNREF", SHORT_NAME="ksproto"))) +
+            s.opt("svc_related", "DiagService.related_diag_comm_refs",
+                  X("RELATED-DIAG-COMM-REFS", X("RELATED-DIAG-COMM-REF", T("RELATION-TYPE", "follow-up"), ID_REF=layer + ".svc_min"))) +
+            s.opt("svc_state_refs", "DiagService.pre_condition_state_refs",
+                  X("PRE-CONDITION-STATE-REFS", X("PRE-CONDITION-STATE-REF", ID_REF=layer + ".SC.grumpy")) +
+                  X("STATE-TRANSITION-REFS", X("STATE-TRANSITION-REF", ID_REF=layer + ".SC.cheer"))) +
+            s.opt("svc_comparam_refs", "DiagService.comparam_refs",
+                  X("COMPARAM-REFS", X("COMPARAM-REF", T("SIMPLE-VALUE", "17"), X("DESC", T("p", "svc comparam")), X("PROTOCOL-SNREF", SHORT_NAME="ksproto"),
+                                       ID_REF="KSCS.cp_simple", DOCREF="KSCS", DOCTYPE="COMPARAM-SUBSET"))) +
+            s.opt("svc_pos_suppress", "DiagService.pos_response_suppressible",
+                  X("POS-RESPONSE-SUPPRESSABLE", T("BITMASK", "128"), X("CODED-CONST-SNREF", SHORT_NAME="sid"))))
 
 
-def job_extras(layer: str) -> str:
+def job_params(layer: str) -> str:
     return (X("INPUT-PARAMS", X("INPUT-PARAM", names("inp", "Input", "in desc"), T("PHYSICAL-DEFAULT-VALUE", "3"),
                                 X("DOP-BASE-REF", ID_REF=layer + ".u8"), OID="oid.inp", SEMANTIC="DATA")) +
             X("OUTPUT-PARAMS", X("OUTPUT-PARAM", names("outp", "Output", "out desc"), X("DOP-BASE-REF", ID_REF=layer + ".u8"),
@@ -201,152 +290,224 @@ def job_extras(layer: str) -> str:
 
 
 # ---------------------------------------------------------------------------------------------
-# the codec constructs (spec language of emit.py)
+# the codec constructs (spec language of emit.py); dicts may carry "feat": (name, label)
 # ---------------------------------------------------------------------------------------------
 def std(bits: int, base: str = "A_UINT32", **kw: Any) -> Dict[str, Any]:
     return dict(k="STD", base=base, bits=bits, **kw)
 
 
-def dops() -> List[Dict[str, Any]]:
-    lim = lambda v, t=None: {"v": v, "type": t}
+def lim(v: Any, t: Optional[str] = None) -> Dict[str, Any]:
+    return {"v": v, "type": t}
+
+
+def prune(x: Any, s: "Sel") -> Any:
+    """Drop every dict whose "feat" is off (recursively through lists/dicts); strip the marker."""
+    if isinstance(x, list):
+        out = []
+        for e in x:
+            if isinstance(e, dict) and "feat" in e:
+                f = e["feat"]
+                if not s.on(f[0], f[1]):
+                    continue
+            out.append(prune(e, s))
+        return out
+    if isinstance(x, dict):
+        return {k: prune(v, s) for k, v in x.items() if k != "feat"}
+    return x
+
+
+def dops(s: "Sel") -> List[Dict[str, Any]]:
+    lin: Dict[str, Any] = dict(name="lin", dct=std(8), phys={"base": "A_FLOAT64", "precision": 1},
+                               cm=dict(cat="LINEAR", i2p=[dict(label="lbl", lo=lim(0, "CLOSED"), hi=lim(200, "OPEN"), num=[1, 0.5], den=[2])]),
+                               feat=("compu_linear", "LinearCompuMethod.compu_internal_to_phys"))
+    if s.on("dop_unit_ref", "DataObjectProperty.unit_ref"):
+        lin["unit"] = "unit.m"
+    if s.on("dop_internal_constr", "DataObjectProperty.internal_constr"):
+        lin["internal_constr"] = dict(lo=lim(0, "CLOSED"), hi=lim(250, "CLOSED"),
+                                      scales=[dict(label="na", lo=lim(240, "CLOSED"), hi=lim(250, "CLOSED"), validity="NOT-AVAILABLE"),
+                                              dict(lo=lim(230), hi=lim(239), validity="NOT-DEFINED")])
+    if s.on("dop_phys_constr", "DataObjectProperty.physical_constr"):
+        lin["phys_constr"] = dict(lo=lim(0.5, "OPEN"), hi=lim(63, "CLOSED"), scales=[dict(label="pna", lo=lim(60, "OPEN"), hi=lim(63), validity="NOT-VALID")])
+    tab_rows = [dict(name="r1", key=1, struct="st_item"), dict(name="r2", key=2, dop="u16le"),
+                dict(name="r3", key=3, struct="st_other", snref=True, feat=("row_struct_snref", "TableRow.structure_snref")),
+                dict(name="r4", key=4, dop="u8", snref=True, feat=("row_dop_snref", "TableRow.dop_snref"))]
+    tab: Dict[str, Any] = dict(kind="table", name="tab", key_dop="u8", long_name="Table", desc="a table", rows=tab_rows, feat=("table", "DiagDataDictionarySpec.tables"))
+    if s.on("table_labels", "Table.key_label"):
+        tab.update(key_label="the key", struct_label="the struct")
+    if s.on("table_semantic", "Table.semantic"):
+        tab.update(semantic="TABSEM")
     return [
         dict(name="u8", dct=std(8), long_name="unsigned byte", desc="plain byte"),
         dict(name="u16le", dct=std(16, hilo=False), phys={"base": "A_UINT32", "radix": "HEX"}),
-        dict(name="u4m", dct=std(8, mask=0x0F, condensed=True)),
+        dict(name="u4m", dct=std(8, mask=0x0F), feat=("dct_bit_mask", "StandardLengthType.bit_mask")),
+        dict(name="u4c", dct=std(8, mask=0x3C, condensed=True), feat=("dct_condensed", "StandardLengthType.is_condensed_raw")),
         dict(name="i8", dct=std(8, base="A_INT32", enc="2C", hilo=True)),
         dict(name="f32", dct=std(32, base="A_FLOAT32"), phys={"base": "A_FLOAT32", "precision": 2}),
-        dict(name="lin", dct=std(8), phys={"base": "A_FLOAT64", "precision": 1}, unit="unit.m",
-             cm=dict(cat="LINEAR", i2p=[dict(label="lbl", lo=lim(0, "CLOSED"), hi=lim(200, "OPEN"), num=[1, 0.5], den=[2])]),
-             internal_constr=dict(lo=lim(0, "CLOSED"), hi=lim(250, "CLOSED"),
-                                  scales=[dict(label="na", lo=lim(240, "CLOSED"), hi=lim(250, "CLOSED"), validity="NOT-AVAILABLE"),
-                                          dict(lo=lim(230), hi=lim(239), validity="NOT-DEFINED")]),
-             phys_constr=dict(lo=lim(0.5, "OPEN"), hi=lim(63, "CLOSED"),
-                              scales=[dict(label="pna", lo=lim(60, "OPEN"), hi=lim(63), validity="NOT-VALID")])),
-        dict(name="sclin", dct=std(8), phys="A_FLOAT64",
+        lin,
+        dict(name="sclin", dct=std(8), phys="A_FLOAT64", feat=("compu_scale_linear", "ScaleLinearCompuMethod.compu_internal_to_phys"),
              cm=dict(cat="SCALE-LINEAR", i2p=[dict(lo=lim(0, "CLOSED"), hi=lim(10, "OPEN"), num=[0, 1], den=[1]),
                                               dict(lo=lim(10, "CLOSED"), hi=lim(None, "INFINITE"), num=[5, 0], den=[1], inv=12)])),
-        dict(name="tabintp", dct=std(8), phys="A_FLOAT64",
+        dict(name="tabintp", dct=std(8), phys="A_FLOAT64", feat=("compu_tab_intp", "TabIntpCompuMethod.compu_internal_to_phys"),
              cm=dict(cat="TAB-INTP", i2p=[dict(lo=lim(0), const=1.5), dict(lo=lim(10), const=3.5), dict(lo=lim(20), const=9)])),
-        dict(name="ratfunc", dct=std(8), phys="A_FLOAT64",
+        dict(name="ratfunc", dct=std(8), phys="A_FLOAT64", feat=("compu_rat_func", "RatFuncCompuMethod.compu_phys_to_internal"),
              cm=dict(cat="RAT-FUNC", i2p=[dict(lo=lim(1), hi=lim(100), num=[1, 2], den=[3, 1])],
                      p2i=[dict(lo=lim(0.2), hi=lim(2), num=[1, -3], den=[-2, 1])])),
-        dict(name="scratfunc", dct=std(8), phys="A_FLOAT64",
+        dict(name="scratfunc", dct=std(8), phys="A_FLOAT64", feat=("compu_scale_rat_func", "ScaleRatFuncCompuMethod.compu_phys_to_internal"),
              cm=dict(cat="SCALE-RAT-FUNC", i2p=[dict(lo=lim(0), hi=lim(9), num=[0, 1], den=[1]), dict(lo=lim(10), hi=lim(99), num=[1, 1], den=[2])],
                      p2i=[dict(lo=lim(0), hi=lim(9), num=[0, 1], den=[1]), dict(lo=lim(5.5), hi=lim(50), num=[-1, 2], den=[1])])),
-        dict(name="texttab", dct=std(8), phys="A_UNICODE2STRING",
+        dict(name="texttab", dct=std(8), phys="A_UNICODE2STRING", feat=("compu_texttable", "TexttableCompuMethod.compu_internal_to_phys"),
              cm=dict(cat="TEXTTABLE", i2p=[dict(label="off", lo=lim(0), hi=lim(0), const="off"), dict(lo=lim(1), hi=lim(5), const="on", inv=2),
                                            dict(lo=lim(6, "OPEN"), hi=lim(9, "CLOSED"), const="a<b&c")],
-                     default_phys="undefined", default_inv=255)),
-        dict(name="compucode", dct=std(8), phys="A_UINT32", cm=dict(cat="COMPUCODE", i2p=[], progcode=True)),
-        dict(name="str_mm", dct=dict(k="MINMAX", base="A_ASCIISTRING", enc="ISO-8859-1", min=1, max=10, term="ZERO"), phys="A_UNICODE2STRING"),
-        dict(name="utf8_eop", dct=dict(k="MINMAX", base="A_UTF8STRING", min=0, term="END-OF-PDU"), phys="A_UNICODE2STRING"),
-        dict(name="bytes_hexff", dct=dict(k="MINMAX", base="A_BYTEFIELD", min=1, max=4, term="HEX-FF"), phys="A_BYTEFIELD"),
-        dict(name="bytes_lead", dct=dict(k="LEAD", base="A_BYTEFIELD", bits=8), phys="A_BYTEFIELD"),
-        dict(name="bytes_plen", dct=dict(k="PLEN", base="A_BYTEFIELD", key_id=B + ".rq_all.lk"), phys="A_BYTEFIELD"),
-        dict(kind="dtcdop", name="dtcs", dct=std(24), dtcs=[dict(name="d1", code=0x0101, level=2, text="first <dtc>"), dict(name="d2", code=0x0102)]),
-        dict(kind="dtcdop", name="dtcs2", dct=std(24), dtcs=[dict(name="e1", code=0x0201)]),
-        dict(kind="struct", name="st_item", byte_size=2, long_name="item", desc="an item",
+                     **(dict(default_phys="undefined", default_inv=255) if s.on("compu_default_value", "CompuInternalToPhys.compu_default_value") else {}))),
+        dict(name="compucode", dct=std(8), phys="A_UINT32", cm=dict(cat="COMPUCODE", i2p=[], progcode=True),
+             feat=("compu_code", "CompuCodeCompuMethod.compu_internal_to_phys")),
+        dict(name="str_mm", dct=dict(k="MINMAX", base="A_ASCIISTRING", enc="ISO-8859-1", min=1, max=10, term="ZERO"), phys="A_UNICODE2STRING",
+             feat=("dct_minmax", "MinMaxLengthType.min_length")),
+        dict(name="utf8_eop", dct=dict(k="MINMAX", base="A_UTF8STRING", min=0, term="END-OF-PDU"), phys="A_UNICODE2STRING",
+             feat=("dct_minmax", "MinMaxLengthType.min_length")),
+        dict(name="bytes_hexff", dct=dict(k="MINMAX", base="A_BYTEFIELD", min=1, max=4, term="HEX-FF"), phys="A_BYTEFIELD",
+             feat=("dct_minmax", "MinMaxLengthType.min_length")),
+        dict(name="bytes_lead", dct=dict(k="LEAD", base="A_BYTEFIELD", bits=8), phys="A_BYTEFIELD", feat=("dct_lead", "LeadingLengthInfoType.bit_length")),
+        dict(name="bytes_plen", dct=dict(k="PLEN", base="A_BYTEFIELD", key_id=B + ".rq_all.lk"), phys="A_BYTEFIELD",
+             feat=("dct_plen", "ParamLengthInfoType.length_key_ref")),
+        dict(kind="dtcdop", name="dtcs", dct=std(24), dtcs=[dict(name="d1", code=0x0101, level=2, text="first <dtc>"), dict(name="d2", code=0x0102)],
+             feat=("dtc_dop", "DiagDataDictionarySpec.dtc_dops")),
+        dict(kind="dtcdop", name="dtcs2", dct=std(24), dtcs=[dict(name="e1", code=0x0201)], feat=("dtc_dop", "DiagDataDictionarySpec.dtc_dops")),
+        dict(kind="struct", name="st_item", long_name="item", desc="an item", **(dict(byte_size=2) if s.on("struct_byte_size", "Structure.byte_size") else {}),
              params=[dict(t="VALUE", name="a", dop="u8", byte=0), dict(t="VALUE", name="b", dop="u8", byte=1, default="5")]),
         dict(kind="struct", name="st_other", params=[dict(t="VALUE", name="c", dop="u16le", byte=0)]),
-        dict(kind="struct", name="st_env", params=[dict(t="VALUE", name="dtc", dop="dtcs", byte=0), dict(t="VALUE", name="env", dop="envdesc", byte=3)]),
-        dict(kind="envdata", name="env_all", all=True, params=[dict(t="VALUE", name="e0", dop="u8", byte=0)]),
-        dict(kind="envdata", name="env_d1", dtcs=[0x0101, 0x0102], params=[dict(t="VALUE", name="e1", dop="u16le", byte=0)]),
-        dict(kind="envdesc", name="envdesc", param="dtc", envdatas=["env_all", "env_d1"]),
-        dict(kind="sfield", name="sf", of="st_item", n=2, item_size=3),
-        dict(kind="dlfield", name="dlf", of="st_item", offset=1, count=dict(byte=0, bit=1, dop="u4m")),
-        dict(kind="eopfield", name="eopf", of="st_item", min=0, max=5),
-        dict(kind="eopfield", name="eopf_sn", of="st_other", snref=True),
-        dict(kind="emfield", name="emf", of="st_item", end_dop="u8", term=255),
-        dict(kind="emfield", name="emf_env", of_env="envdesc", end_dop="u8", term=0),
-        dict(kind="mux", name="mx", byte=1, key=dict(byte=0, bit=0, dop="u8"),
-             cases=[dict(name="c1", lo={"v": 1, "type": "CLOSED"}, hi={"v": 3, "type": "CLOSED"}, struct="st_item"),
-                    dict(name="c2", lo={"v": 4}, hi={"v": 4}, struct="st_other", snref=True),
-                    dict(name="c3", lo={"v": 5}, hi={"v": 6})],
+        dict(kind="envdata", name="env_all", all=True, params=[dict(t="VALUE", name="e0", dop="u8", byte=0)], feat=("env_data", "DiagDataDictionarySpec.env_datas")),
+        dict(kind="envdata", name="env_d1", dtcs=[0x0101, 0x0102], params=[dict(t="VALUE", name="e1", dop="u16le", byte=0)],
+             feat=("env_data", "DiagDataDictionarySpec.env_datas")),
+        dict(kind="envdesc", name="envdesc", param="dtc", envdatas=["env_all", "env_d1"], feat=("env_data", "DiagDataDictionarySpec.env_datas")),
+        dict(kind="sfield", name="sf", of="st_item", n=2, item_size=3, feat=("sfield", "DiagDataDictionarySpec.static_fields")),
+        dict(kind="dlfield", name="dlf", of="st_item", offset=1, count=dict(byte=0, bit=1, dop="u8"), feat=("dlfield", "DiagDataDictionarySpec.dynamic_length_fields")),
+        dict(kind="eopfield", name="eopf", of="st_item", min=0, max=5, feat=("eopfield", "DiagDataDictionarySpec.end_of_pdu_fields")),
+        dict(kind="eopfield", name="eopf_sn", of="st_other", snref=True, feat=("eopfield_snref", "EndOfPduField.structure_snref")),
+        dict(kind="emfield", name="emf", of="st_item", end_dop="u8", term=255, feat=("emfield", "DiagDataDictionarySpec.dynamic_endmarker_fields")),
+        dict(kind="emfield", name="emf_env", of_env="envdesc", end_dop="u8", term=0, feat=("emfield_env", "DynamicEndmarkerField.env_data_desc_ref")),
+        dict(kind="mux", name="mx", byte=1, key=dict(byte=0, bit=0, dop="u8"), feat=("mux", "DiagDataDictionarySpec.muxs"),
+             cases=[dict(name="c1", lo=lim(1, "CLOSED"), hi=lim(3, "CLOSED"), struct="st_item"),
+                    dict(name="c2", lo=lim(4), hi=lim(4), struct="st_other", snref=True, feat=("mux_snref_case", "MultiplexerCase.structure_snref")),
+                    dict(name="c3", lo=lim(5), hi=lim(6), feat=("mux_case_nostruct", "MultiplexerCase.structure_ref"))],
              default=dict(name="dflt", struct="st_item")),
-        dict(kind="mux", name="mx2", key=dict(byte=0, dop="u8"), cases=[], default=dict(name="only", struct="st_other", snref=True)),
-        dict(kind="table", name="tab", key_dop="u8", key_label="the key", struct_label="the struct", semantic="TABSEM", long_name="Table", desc="a table",
-             rows=[dict(name="r1", key=1, struct="st_item"), dict(name="r2", key=2, dop="u16le"), dict(name="r3", key=3, struct="st_other", snref=True),
-                   dict(name="r4", key=4, dop="u8", snref=True)]),
-        dict(kind="table", name="tab2", key_dop="u8", rows=[dict(name="q1", key=1, struct="st_item")]),
+        dict(kind="mux", name="mx2", key=dict(byte=0, dop="u8"), cases=[], default=dict(name="only", struct="st_other", snref=True),
+             feat=("mux_snref_default", "MultiplexerDefaultCase.structure_snref")),
+        tab,
+        dict(kind="table", name="tab2", key_dop="u8", rows=[dict(name="q1", key=1, struct="st_item")], feat=("table", "DiagDataDictionarySpec.tables")),
     ]
 
 
-def messages() -> List[Dict[str, Any]]:
-    cc = lambda name, v, byte=None, bits=8: dict(t="CODED-CONST", name=name, dct=std(bits), value=v, byte=byte)
+def cc(name: str, v: int, byte: Optional[int] = None, bits: int = 8) -> Dict[str, Any]:
+    return dict(t="CODED-CONST", name=name, dct=std(bits), value=v, byte=byte)
+
+
+def messages(s: "Sel") -> List[Dict[str, Any]]:
+    v_u8: Dict[str, Any] = dict(t="VALUE", name="v_u8", dop="u8", byte=1, long_name="a byte", desc="param desc")
+    if s.on("param_semantic", "ValueParameter.semantic"):
+        v_u8["semantic"] = "DATA"
+    if s.on("param_oid", "ValueParameter.oid"):
+        v_u8["oid"] = "oid.v_u8"
     return [
         dict(kind="REQUEST", name="rq_all", long_name="all request parameter kinds", desc="request desc", params=[
-            cc("sid", 0x22, 0), dict(t="VALUE", name="v_u8", dop="u8", byte=1, semantic="DATA", oid="oid.v_u8", long_name="a byte", desc="param desc"),
-            dict(t="VALUE", name="v_lin", dop="lin", byte=2, default="10"),
-            dict(t="PHYS-CONST", name="pc", dop="u8", byte=3, const="7"),
-            dict(t="RESERVED", name="rsv", bits=4, byte=4, bit=2),
-            dict(t="SYSTEM", name="sys", dop="u16le", byte=5, sysparam="YEAR"),
-            dict(t="VALUE", name="v_sn", dop="u4m", snref=True, byte=7),
-            dict(t="VALUE", name="v_lib", dop="@kslib.lib_u8", byte=8, docref="KSLIB", doctype="CONTAINER"),
-            dict(t="TABLE-KEY", name="tk", table="tab", id=B + ".rq_all.tk", byte=9),
-            dict(t="TABLE-STRUCT", name="ts", key_id=B + ".rq_all.tk", byte=10),
-            dict(t="LENGTH-KEY", name="lk", dop="u8", id=B + ".rq_all.lk", byte=13, semantic="LK"),
-            dict(t="VALUE", name="v_plen", dop="bytes_plen", byte=14),
+            cc("sid", 0x22, 0), v_u8,
+            dict(t="VALUE", name="v_lin", dop="lin", byte=2, default="10", feat=("compu_linear", "")),
+            dict(t="PHYS-CONST", name="pc", dop="u8", byte=3, const="7", feat=("p_physconst", "PhysicalConstantParameter.physical_constant_value_raw")),
+            dict(t="RESERVED", name="rsv", bits=4, byte=4, bit=2, feat=("p_reserved", "ReservedParameter.bit_length")),
+            dict(t="SYSTEM", name="sys", dop="u16le", byte=5, sysparam="YEAR", feat=("p_system", "SystemParameter.sysparam")),
+            dict(t="VALUE", name="v_sn", dop="i8", snref=True, byte=7, feat=("p_dop_snref", "ValueParameter.dop_snref")),
+            dict(t="VALUE", name="v_lib", dop="@kslib.lib_u8", byte=8, docref="KSLIB", doctype="CONTAINER", feat=("cross_doc_dop", "ValueParameter.dop_ref.ref_docs")),
+            dict(t="TABLE-KEY", name="tk", table="tab", id=B + ".rq_all.tk", byte=9, feat=("p_tablekey", "TableKeyParameter.table_ref")),
+            dict(t="TABLE-STRUCT", name="ts", key_id=B + ".rq_all.tk", byte=10, feat=("p_tablekey", "TableKeyParameter.table_ref")),
+            dict(t="LENGTH-KEY", name="lk", dop="u8", id=B + ".rq_all.lk", byte=13, semantic="LK", feat=("p_lengthkey", "LengthKeyParameter.odx_id")),
+            dict(t="VALUE", name="v_plen", dop="bytes_plen", byte=14, feat=("dct_plen", "")),
         ]),
         dict(kind="REQUEST", name="rq_min", params=[cc("sid", 0x3E, 0), dict(t="VALUE", name="x", dop="i8", byte=1, bit=0)]),
-        dict(kind="REQUEST", name="rq_tk", params=[
-            cc("sid", 0x23, 0), dict(t="TABLE-KEY", name="tk1", table="tab", row="r2", id=B + ".rq_tk.tk1", byte=1),
-            dict(t="TABLE-KEY", name="tk2", table="tab2", snref=True, id=B + ".rq_tk.tk2", byte=2),
-            dict(t="TABLE-STRUCT", name="ts2", key="tk2", key_snref=True, byte=3)]),
-        dict(kind="REQUEST", name="rq_str", params=[cc("sid", 0x2E, 0), dict(t="VALUE", name="s1", dop="str_mm", byte=1),
-                                                     dict(t="VALUE", name="b1", dop="bytes_lead"), dict(t="VALUE", name="f", dop="f32"),
-                                                     dict(t="VALUE", name="s2", dop="utf8_eop")]),
+        dict(kind="REQUEST", name="rq_tk", feat=("table", ""), params=[
+            cc("sid", 0x23, 0),
+            dict(t="TABLE-KEY", name="tk1", table="tab", row="r2", id=B + ".rq_tk.tk1", byte=1, feat=("p_tablekey_row", "TableKeyParameter.table_row_ref")),
+            dict(t="TABLE-KEY", name="tk2", table="tab2", snref=True, id=B + ".rq_tk.tk2", byte=2, feat=("p_tablekey_snref", "TableKeyParameter.table_snref")),
+            dict(t="TABLE-STRUCT", name="ts2", key="tk2", key_snref=True, byte=3, feat=("p_tablestruct_snref", "TableStructParameter.table_key_snref"))]),
+        dict(kind="REQUEST", name="rq_str", params=[cc("sid", 0x2E, 0), dict(t="VALUE", name="s1", dop="str_mm", byte=1, feat=("dct_minmax", "")),
+                                                     dict(t="VALUE", name="b1", dop="bytes_lead", feat=("dct_lead", "")), dict(t="VALUE", name="f", dop="f32"),
+                                                     dict(t="VALUE", name="s2", dop="utf8_eop", feat=("dct_minmax", ""))]),
         dict(kind="POS-RESPONSE", name="pr_all", long_name="all response parameter kinds", params=[
             cc("sid", 0x62, 0), dict(t="MATCHING-REQUEST-PARAM", name="echo", rq_byte=1, len=1, byte=1),
-            dict(t="VALUE", name="mx", dop="mx", byte=2), dict(t="VALUE", name="sf", dop="sf", byte=6),
-            dict(t="TABLE-ENTRY", name="te", table="tab", row="r1", target="STRUCT", byte=12),
-            dict(t="VALUE", name="t1", dop="texttab", byte=14), dict(t="VALUE", name="r1", dop="ratfunc", byte=15),
-            dict(t="VALUE", name="eop", dop="eopf", byte=16)]),
-        dict(kind="POS-RESPONSE", name="pr_min", params=[cc("sid", 0x7E, 0), dict(t="VALUE", name="y", dop="sclin", byte=1),
-                                                         dict(t="VALUE", name="z", dop="tabintp", byte=2), dict(t="VALUE", name="w", dop="scratfunc", byte=3),
-                                                         dict(t="VALUE", name="cc", dop="compucode", byte=4)]),
-        dict(kind="POS-RESPONSE", name="pr_dyn", params=[cc("sid", 0x63, 0), dict(t="VALUE", name="dl", dop="dlf", byte=1),
-                                                         dict(t="VALUE", name="em", dop="emf"), dict(t="VALUE", name="hx", dop="bytes_hexff"),
-                                                         dict(t="DYNAMIC", name="dyn"), dict(t="VALUE", name="m2", dop="mx2")]),
-        dict(kind="POS-RESPONSE", name="pr_env", params=[cc("sid", 0x59, 0), dict(t="VALUE", name="dtc", dop="dtcs", byte=1),
-                                                         dict(t="VALUE", name="env", dop="envdesc", byte=4)]),
+            dict(t="VALUE", name="mx", dop="mx", byte=2, feat=("mux", "")), dict(t="VALUE", name="sf", dop="sf", byte=6, feat=("sfield", "")),
+            dict(t="TABLE-ENTRY", name="te", table="tab", row="r1", target="STRUCT", byte=12, feat=("p_tableentry", "TableEntryParameter.table_row_ref")),
+            dict(t="VALUE", name="t1", dop="texttab", byte=14, feat=("compu_texttable", "")), dict(t="VALUE", name="r1", dop="ratfunc", byte=15, feat=("compu_rat_func", "")),
+            dict(t="VALUE", name="um", dop="u4m", byte=16, feat=("dct_bit_mask", "")), dict(t="VALUE", name="uc", dop="u4c", byte=17, feat=("dct_condensed", "")),
+            dict(t="VALUE", name="eop", dop="eopf", byte=18, feat=("eopfield", ""))]),
+        dict(kind="POS-RESPONSE", name="pr_min", params=[cc("sid", 0x7E, 0), dict(t="VALUE", name="y", dop="sclin", byte=1, feat=("compu_scale_linear", "")),
+                                                         dict(t="VALUE", name="z", dop="tabintp", byte=2, feat=("compu_tab_intp", "")),
+                                                         dict(t="VALUE", name="w", dop="scratfunc", byte=3, feat=("compu_scale_rat_func", "")),
+                                                         dict(t="VALUE", name="cc", dop="compucode", byte=4, feat=("compu_code", ""))]),
+        dict(kind="POS-RESPONSE", name="pr_dyn", params=[cc("sid", 0x63, 0), dict(t="VALUE", name="dl", dop="dlf", byte=1, feat=("dlfield", "")),
+                                                         dict(t="VALUE", name="em", dop="emf", feat=("emfield", "")),
+                                                         dict(t="VALUE", name="hx", dop="bytes_hexff", feat=("dct_minmax", "")),
+                                                         dict(t="DYNAMIC", name="dyn", feat=("p_dynamic", "DynamicParameter.short_name")),
+                                                         dict(t="VALUE", name="m2", dop="mx2", feat=("mux_snref_default", "")),
+                                                         dict(t="VALUE", name="es", dop="eopf_sn", feat=("eopfield_snref", ""))]),
+        dict(kind="POS-RESPONSE", name="pr_env", feat=("dtc_dop", ""), params=[cc("sid", 0x59, 0), dict(t="VALUE", name="dtc", dop="dtcs", byte=1),
+                                                                              dict(t="VALUE", name="env", dop="envdesc", byte=4, feat=("env_data", "")),
+                                                                              dict(t="VALUE", name="eme", dop="emf_env", feat=("emfield_env", ""))]),
         dict(kind="NEG-RESPONSE", name="nr", params=[cc("nsid", 0x7F, 0), dict(t="MATCHING-REQUEST-PARAM", name="rsid", rq_byte=0, len=1, byte=1),
-                                                     dict(t="NRC-CONST", name="nrc", dct=std(8), values=[0x10, 0x11, 0x12], byte=2)]),
+                                                     dict(t="NRC-CONST", name="nrc", dct=std(8), values=[0x10, 0x11, 0x12], byte=2,
+                                                          feat=("p_nrcconst", "NrcConstParameter.coded_values"))]),
         dict(kind="GLOBAL-NEG-RESPONSE", name="gnr", params=[cc("nsid", 0x7F, 0), dict(t="VALUE", name="gsid", dop="u8", byte=1),
                                                              dict(t="VALUE", name="gnrc", dop="u8", byte=2)]),
     ]
 
 
-def services() -> List[Dict[str, Any]]:
+def services(s: "Sel") -> List[Dict[str, Any]]:
+    svc_all: Dict[str, Any] = dict(name="svc_all", long_name="service with everything", desc="service desc", request="rq_all",
+                                   pos=["pr_all"] + (["pr_env"] if s.on("dtc_dop") else []), neg=["nr"], audience_xml=service_extras(B, s))
+    if s.on("svc_funct_classes", "DiagService.functional_class_refs"):
+        svc_all["funct_classes"] = ["fc1", "fc2"]
+    if s.on("svc_semantic", "DiagService.semantic"):
+        svc_all["semantic"] = "FUNCTION"
+    if s.on("svc_addressing", "DiagService.addressing_raw"):
+        svc_all.update(addressing="FUNCTIONAL-OR-PHYSICAL", transmission_mode="SEND-AND-RECEIVE")
     return [
-        dict(name="svc_all", long_name="service with everything", desc="service desc", request="rq_all", pos=["pr_all", "pr_env"], neg=["nr"],
-             funct_classes=["fc1", "fc2"], semantic="FUNCTION", addressing="FUNCTIONAL-OR-PHYSICAL", transmission_mode="SEND-AND-RECEIVE",
-             audience_xml=service_extras(B)),
+        svc_all,
         dict(name="svc_min", request="rq_min", pos=["pr_min"]),
-        dict(name="svc_tk", request="rq_tk", pos=["pr_dyn"], addressing="PHYSICAL", transmission_mode="SEND-ONLY"),
-        dict(name="svc_str", request="rq_str", pos=["pr_min"], neg=["nr"]),
-        dict(job=True, name="job", long_name="a job", funct_classes=["fc1"]),
+        dict(name="svc_tk", request="rq_tk", pos=["pr_dyn"], feat=("table", "")),
+        dict(name="svc_str", request="rq_str", pos=["pr_min", "pr_dyn"], neg=["nr"]),
+        dict(job=True, name="job", long_name="a job", feat=("job", "DiagLayerRaw.diag_comms_raw<SingleEcuJob>")),
         dict(name="svc_dyn_clear", request="rq_min"), dict(name="svc_dyn_read", request="rq_min"), dict(name="svc_dyn_def", request="rq_min"),
     ]
 
 
-def ksbase() -> Dict[str, Any]:
-    return dict(
+def ksbase(s: "Sel") -> Dict[str, Any]:
+    d = dops(s)
+    ni = s.on("not_inherited", "ParentRef.not_inherited_diag_comms")
+    return prune(dict(
         type="BASE-VARIANT", name=B, long_name="kitchen sink base variant", desc="layer desc",
-        head_xml=admin_data(B + ".CD", B + ".CD.doggy") + company_datas(B),
+        head_xml=s.opt("layer_admin", "DiagLayerRaw.admin_data", admin_data("KS.CD", "KS.CD.doggy")) +
+        s.opt("layer_company_datas", "DiagLayerRaw.company_datas", company_datas(B)),
         funct_classes=[dict(name="fc1", long_name="class one"), "fc2"],
-        dops=dops(), unit_spec_xml=unit_spec(B), msgs=messages(), svcs=services(),
-        imports=[dict(id="kslib", docref="KSLIB", doctype="CONTAINER")],
-        mid_xml=state_charts(B) + additional_audiences(B) + sub_components(B) + libraries(B) + sdgs(B),
-        comparams=[dict(id="KSCS.cp_simple", docref="KSCS", value="1000", protocol="ksproto", prot_stack="stack1"),
-                   dict(id="KSCS.cp_complex", docref="KSCS", complex=["1", ["2", "3"], "4"], protocol="ksproto")],
-        variant_xml=diag_variables(B, True) + dyn_defined_spec(B) + base_variant_pattern(),
-        parents=[dict(layer="ksproto", not_inherited=dict(comms=["proto_svc"], dops=["p_dop"], gnrs=["p_gnr"])),
-                 dict(layer="ksshared", not_inherited=dict(tables=["sh_tab"], vars=["dv2"])), dict(layer="ksfg")],
-    )
+        dops=d, unit_spec_xml=s.opt("unit_spec", "DiagDataDictionarySpec.unit_spec", unit_spec(B, s, "layer")), msgs=messages(s), svcs=services(s),
+        imports=[dict(id="kslib", docref="KSLIB", doctype="CONTAINER", feat=("import_ref", "DiagLayerRaw.import_refs"))],
+        mid_xml=s.opt("state_charts", "DiagLayerRaw.state_charts", state_charts(B, s)) +
+        s.opt("additional_audiences", "DiagLayerRaw.additional_audiences", additional_audiences(B)) +
+        s.opt("sub_components", "DiagLayerRaw.sub_components", sub_components(B, s)) +
+        s.opt("libraries", "DiagLayerRaw.libraries", libraries(B)) + s.opt("layer_sdgs", "DiagLayerRaw.sdgs", sdgs(B)),
+        comparams=[dict(id="KSCS.cp_simple", docref="KSCS", value="1000", protocol="ksproto", prot_stack="stack1",
+                        feat=("layer_comparam_simple", "HierarchyElementRaw.comparam_refs")),
+                   dict(id="KSCS.cp_complex", docref="KSCS", complex=["1", ["2", "3"], "4"], protocol="ksproto",
+                        feat=("layer_comparam_complex", "ComparamInstance.value<complex>"))],
+        variant_xml=s.opt("dv_base", "BaseVariantRaw.diag_variables_raw", diag_variables(B, s, True, "svc_all")) +
+        s.opt("dyn_spec_base", "BaseVariantRaw.dyn_defined_spec", dyn_defined_spec(B, "tab2")) +
+        s.opt("bv_pattern", "BaseVariantRaw.base_variant_pattern", base_variant_pattern(s)),
+        parents=[dict(layer="ksproto", not_inherited=dict(comms=["proto_svc"], dops=["p_dop"], gnrs=["p_gnr"]) if ni else {}),
+                 dict(layer="ksshared", not_inherited=dict(**(dict(tables=["sh_tab"]) if s.on("table") else {}),
+                                                           **(dict(vars=["dv2"]) if s.on("dv_shared", "EcuSharedDataRaw.diag_variables_raw") else {})) if ni else {}),
+                 dict(layer="ksfg")],
+    ), s)
 
 
-def container_ks() -> Dict[str, Any]:
-    cc = lambda name, v, byte=None: dict(t="CODED-CONST", name=name, dct=std(8), value=v, byte=byte)
+def container_ks(s: "Sel") -> Dict[str, Any]:
+    ni = s.on("not_inherited", "ParentRef.not_inherited_diag_comms")
     proto = dict(
         type="PROTOCOL", name="ksproto", long_name="protocol", comparam_spec="KSC", prot_stack="stack1",
         dops=[dict(name="p_dop", dct=std(8)), dict(name="p_u8", dct=std(8))],
@@ -362,54 +523,65 @@ def container_ks() -> Dict[str, Any]:
         dops=[dict(name="fg_u8", dct=std(8))],
         msgs=[dict(kind="REQUEST", name="fg_rq", params=[cc("sid", 0x11, 0), dict(t="VALUE", name="rt", dop="fg_u8", byte=1)])],
         svcs=[dict(name="svc_fg", request="fg_rq")],
-        variant_xml=diag_variables("ksfg", False),
+        variant_xml=s.opt("dv_fg", "FunctionalGroupRaw.diag_variables_raw", diag_variables("ksfg", s, False, "svc_fg")),
     )
     shared = dict(
         type="ECU-SHARED-DATA", name="ksshared", long_name="shared data",
         dops=[dict(name="sh_u8", dct=std(8)), dict(kind="struct", name="sh_st", params=[dict(t="VALUE", name="a", dop="sh_u8", byte=0)]),
-              dict(kind="table", name="sh_tab", key_dop="sh_u8", rows=[dict(name="s1", key=1, struct="sh_st")])],
-        msgs=[dict(kind="REQUEST", name="sh_rq", params=[cc("sid", 0x12, 0)])], svcs=[dict(name="svc_fg", request="sh_rq"), dict(name="svc_sh", request="sh_rq")],
-        tail_xml=diag_variables("ksshared", False),
+              dict(kind="table", name="sh_tab", key_dop="sh_u8", rows=[dict(name="s1", key=1, struct="sh_st")], feat=("table", ""))],
+        msgs=[dict(kind="REQUEST", name="sh_rq", params=[cc("sid", 0x12, 0)])], svcs=[dict(name="svc_sh", request="sh_rq")],
+        tail_xml=s.opt("dv_shared", "EcuSharedDataRaw.diag_variables_raw", diag_variables("ksshared", s, False, "svc_sh")),
     )
     ecu = dict(
         type="ECU-VARIANT", name="ksecu", long_name="ecu variant",
-        parents=[dict(layer=B, not_inherited=dict(comms=["svc_str"], dops=["f32"], tables=["tab2"]))],
+        parents=[dict(layer=B, not_inherited=dict(comms=["svc_str"], dops=["f32"], **(dict(tables=["tab2"]) if s.on("table") else {})) if ni else {})],
         dops=[dict(name="ev_u8", dct=std(8))],
         msgs=[dict(kind="REQUEST", name="ev_rq", params=[cc("sid", 0x31, 0), dict(t="VALUE", name="rid", dop="ev_u8", byte=1)]),
               dict(kind="POS-RESPONSE", name="ev_pr", params=[cc("sid", 0x71, 0), dict(t="MATCHING-REQUEST-PARAM", name="rid", rq_byte=1, len=1, byte=1)])],
-        svcs=[dict(name="svc_ev", request="ev_rq", pos=["ev_pr"]), dict(ref=B + ".svc_min")],
-        variant_xml=ecu_variant_patterns() + dyn_defined_spec(B, "tab") + diag_variables("ksecu", False),
+        svcs=[dict(name="svc_ev", request="ev_rq", pos=["ev_pr"]), dict(ref=B + ".svc_min", feat=("diag_comm_ref", "DiagLayerRaw.diag_comms_raw<OdxLinkRef>"))],
+        variant_xml=s.opt("ev_patterns", "EcuVariantRaw.ecu_variant_patterns", ecu_variant_patterns(s)) +
+        s.opt("dyn_spec_ecu", "EcuVariantRaw.dyn_defined_spec", dyn_defined_spec(B, "tab")) +
+        s.opt("dv_ecu", "EcuVariantRaw.diag_variables_raw", diag_variables("ksecu", s, False, "svc_ev")),
     )
-    return dict(name="KS", long_name="kitchen sink container", layers=[proto, fg, shared, ksbase(), ecu],
-                head_xml=desc("container desc") + admin_data("KS.CD", "KS.CD.doggy") + company_datas("KS") + sdgs("KS"))
+    return dict(name="KS", long_name="kitchen sink container", layers=[prune(proto, s), prune(fg, s), prune(shared, s), ksbase(s), prune(ecu, s)],
+                head_xml=desc("container desc", ext=s.on("desc_external_docs", "Description.external_docs"),
+                              ti="en" if s.on("desc_ti", "Description.text_identifier") else None) +
+                admin_data("KS.CD", "KS.CD.doggy", s) + company_datas("KS", s) + s.opt("category_sdgs", "DiagLayerContainer.sdgs", sdgs("KS")))
 
 
-def container_lib() -> Dict[str, Any]:
+def container_lib(s: "Sel") -> Dict[str, Any]:
     lib = dict(type="ECU-SHARED-DATA", name="kslib", long_name="library layer in a second container",
                dops=[dict(name="lib_u8", dct=std(8), long_name="byte of the library")])
     return dict(name="KSLIB", long_name="second container", layers=[lib])
 
 
-def subset() -> Dict[str, Any]:
+def subset(s: "Sel") -> Dict[str, Any]:
+    cplx: Dict[str, Any] = dict(name="cp_complex", long_name="complex comparam", cptype="STANDARD", param_class="UNIQUE_ID", usage="ECU-COMM",
+                                subs=[dict(name="sub1", dop="cs_u32", default="1", param_class="UNIQUE_ID"),
+                                      dict(name="sub2", param_class="UNIQUE_ID", subs=[dict(name="sub2a", dop="cs_u32", default="2", param_class="UNIQUE_ID"),
+                                                                                        dict(name="sub2b", dop="cs_u32", default="3", param_class="UNIQUE_ID")]),
+                                      dict(name="sub3", dop="cs_u32", default="4", param_class="UNIQUE_ID")])
+    if s.on("cs_complex_default", "ComplexComparam.physical_default_value"):
+        cplx["default_complex"] = [["1", ["2", "3"], "4"], ["5", ["6", "7"], "8"]]
+    if s.on("cs_allow_multiple", "ComplexComparam.allow_multiple_values_raw"):
+        cplx["allow_multiple"] = True
+    cp_simple: Dict[str, Any] = dict(name="cp_simple", long_name="simple comparam", cptype="STANDARD", param_class="TIMING", usage="ECU-COMM", dop="cs_u32", default="100")
+    if s.on("cs_display_level", "Comparam.display_level"):
+        cp_simple["display_level"] = 1
     return dict(
         name="KSCS", long_name="kitchen sink comparam subset", category="APPLICATION",
-        comparams=[dict(name="cp_simple", long_name="simple comparam", cptype="STANDARD", param_class="TIMING", usage="ECU-COMM", dop="cs_u32",
-                        default="100", display_level=1),
-                   dict(name="cp_second", cptype="OPTIONAL", param_class="COM", usage="TESTER", dop="cs_text", default="fast")],
-        complex=[dict(name="cp_complex", long_name="complex comparam", cptype="STANDARD", param_class="UNIQUE_ID", usage="ECU-COMM", allow_multiple=True,
-                      subs=[dict(name="sub1", dop="cs_u32", default="1", param_class="UNIQUE_ID"),
-                            dict(name="sub2", param_class="UNIQUE_ID", subs=[dict(name="sub2a", dop="cs_u32", default="2", param_class="UNIQUE_ID"),
-                                                                              dict(name="sub2b", dop="cs_u32", default="3", param_class="UNIQUE_ID")]),
-                            dict(name="sub3", dop="cs_u32", default="4", param_class="UNIQUE_ID")],
-                      default_complex=[["1", ["2", "3"], "4"], ["5", ["6", "7"], "8"]])],
-        dops=[dict(name="cs_u32", dct=std(32), unit="unit.m"),
+        comparams=[cp_simple, dict(name="cp_second", cptype="OPTIONAL", param_class="COM", usage="TESTER", dop="cs_text", default="fast")],
+        complex=[cplx],
+        dops=[dict(name="cs_u32", dct=std(32), **(dict(unit="unit.m") if s.on("cs_unit_spec", "ComparamSubset.unit_spec") else {})),
               dict(name="cs_text", dct=std(8), phys="A_UNICODE2STRING",
-                   cm=dict(cat="TEXTTABLE", i2p=[dict(lo={"v": 0}, hi={"v": 0}, const="slow"), dict(lo={"v": 1}, hi={"v": 1}, const="fast")]))],
-        tail_xml=unit_spec("KSCS") + desc("subset desc", ext=False) + admin_data("KSCS.CD", "KSCS.CD.doggy") + company_datas("KSCS") + sdgs("KSCS"),
+                   cm=dict(cat="TEXTTABLE", i2p=[dict(lo=lim(0), hi=lim(0), const="slow"), dict(lo=lim(1), hi=lim(1), const="fast")]))],
+        tail_xml=s.opt("cs_unit_spec", "ComparamSubset.unit_spec", unit_spec("KSCS", s, "subset")) + desc("subset desc", ext=False) +
+        s.opt("cs_admin", "ComparamSubset.admin_data", admin_data("KSCS.CD", "KSCS.CD.doggy") + company_datas("KSCS")) +
+        s.opt("cs_sdgs", "ComparamSubset.sdgs", sdgs("KSCS")),
     )
 
 
-def spec() -> Dict[str, Any]:
+def spec(s: "Sel") -> Dict[str, Any]:
     return dict(name="KSC", prot_stacks=[dict(name="stack1", subsets=[("KSCS", "KSCS")]),
                                          dict(name="stack2", pdu_protocol_type="ISO_14230_3_on_ISO_14230_2", physical_link_type="ISO_14230_1_UART",
                                               subsets=[("KSCS", "KSCS")])])
@@ -431,88 +603,132 @@ def _before_end(xml: str, tag: str, ident: str, extra: str) -> str:
     return xml[:end] + extra + xml[end:]
 
 
-def finish_ks(xml: str) -> str:
+def _after_names(xml: str, tag: str, ident: str, extra: str) -> str:
+    """Insert extra after the SHORT-NAME/LONG-NAME/DESC group of the element <tag ID=ident ...>."""
+    start = xml.index(f'<{tag} ID="{ident}"')
+    m = re.compile(r"<SHORT-NAME>[^<]*</SHORT-NAME>(<LONG-NAME>[^<]*</LONG-NAME>)?(<DESC>.*?</DESC>)?").search(xml, start)
+    assert m is not None
+    return xml[:m.end()] + extra + xml[m.end():]
+
+
+def finish_ks(xml: str, s: "Sel") -> str:
+    AD = admin_data("KS.CD", "KS.CD.doggy")
     xml = re.sub(r'ID-REF="[^".]+\.@', 'ID-REF="', xml)  # references into another layer: "@layer.name"
-    xml = _attrs(xml, "DIAG-SERVICE", B + ".svc_all",
-                 'OID="oid.svc_all" DIAGNOSTIC-CLASS="STARTCOMM" IS-MANDATORY="true" IS-EXECUTABLE="false" IS-FINAL="true" IS-CYCLIC="true" IS-MULTIPLE="true"')
     for nm, dc in (("svc_dyn_clear", "CLEAR-DYN-DEF-MESSAGE"), ("svc_dyn_read", "READ-DYN-DEFINED-MESSAGE"), ("svc_dyn_def", "DYN-DEF-MESSAGE")):
         xml = _attrs(xml, "DIAG-SERVICE", f"{B}.{nm}", f'DIAGNOSTIC-CLASS="{dc}"')
-    xml = _attrs(xml, "SINGLE-ECU-JOB", B + ".job", 'OID="oid.job" SEMANTIC="JOBSEM" IS-MANDATORY="false" IS-EXECUTABLE="true" IS-FINAL="false"')
-    xml = _before_end(xml, "SINGLE-ECU-JOB", B + ".job", job_extras(B) + audience(B) + sdgs(B + ".job"))
-    xml = xml.replace("<REVISION>1</REVISION></PROG-CODE></PROG-CODES>",
-                      "<REVISION>1</REVISION><ENCRYPTION>none</ENCRYPTION><ENTRYPOINT>run</ENTRYPOINT>" +
-                      X("LIBRARY-REFS", X("LIBRARY-REF", ID_REF=B + ".LIB.lib1")) + "</PROG-CODE></PROG-CODES>", 1)
-    xml = _attrs(xml, "DATA-OBJECT-PROP", B + ".u8", 'OID="oid.u8"')
-    xml = _before_end(xml, "DATA-OBJECT-PROP", B + ".u8", "")
-    xml = xml.replace(f'<DATA-OBJECT-PROP ID="{B}.u8" OID="oid.u8"><SHORT-NAME>u8</SHORT-NAME><LONG-NAME>unsigned byte</LONG-NAME><DESC><p>plain byte</p></DESC>',
-                      f'<DATA-OBJECT-PROP ID="{B}.u8" OID="oid.u8"><SHORT-NAME>u8</SHORT-NAME><LONG-NAME>unsigned byte</LONG-NAME><DESC><p>plain byte</p></DESC>' +
-                      admin_data(B + ".CD", B + ".CD.doggy") + sdgs(B + ".u8"), 1)
-    xml = _attrs(xml, "STRUCTURE", B + ".st_item", 'OID="oid.st_item" IS-VISIBLE="true"')
-    xml = _before_end(xml, "STRUCTURE", B + ".st_item", sdgs(B + ".st_item"))
-    xml = _attrs(xml, "DTC-DOP", B + ".dtcs", 'OID="oid.dtcs" IS-VISIBLE="true"')
-    xml = _before_end(xml, "DTC-DOP", B + ".dtcs",
-                      X("LINKED-DTC-DOPS", X("LINKED-DTC-DOP", X("NOT-INHERITED-DTC-SNREFS", X("NOT-INHERITED-DTC-SNREF", SHORT_NAME="e1")),
-                                             X("DTC-DOP-REF", ID_REF=B + ".dtcs2"))))
-    xml = xml.replace(f'<DTC ID="{B}.DTC.d1">', f'<DTC ID="{B}.DTC.d1" OID="oid.d1" IS-TEMPORARY="true">', 1)
-    xml = _before_end(xml, "DTC", B + ".DTC.d1", sdgs(B + ".d1"))
-    xml = xml.replace(f'<DTC ID="{B}.DTC.e1">', f'<DTC-REF ID-REF="{B}.DTC.d2"/><DTC ID="{B}.DTC.e1">', 1)
-    for tag, ident in (("STATIC-FIELD", "sf"), ("DYNAMIC-LENGTH-FIELD", "dlf"), ("END-OF-PDU-FIELD", "eopf"), ("DYNAMIC-ENDMARKER-FIELD", "emf"),
-                       ("MUX", "mx"), ("ENV-DATA-DESC", "envdesc"), ("ENV-DATA", "env_all")):
-        xml = _attrs(xml, tag, f"{B}.{ident}", f'OID="oid.{ident}"' + (' IS-VISIBLE="false"' if tag not in ("ENV-DATA-DESC", "ENV-DATA") else ""))
-    xml = _attrs(xml, "TABLE", B + ".tab", 'OID="oid.tab"')
-    xml = _before_end(xml, "TABLE", B + ".tab",
-                      X("TABLE-ROW-REF", ID_REF=B + ".tab2.q1") +
-                      X("TABLE-DIAG-COMM-CONNECTORS", X("TABLE-DIAG-COMM-CONNECTOR", T("SEMANTIC", "TDCSEM"), X("DIAG-COMM-REF", ID_REF=B + ".svc_min")),
-                        X("TABLE-DIAG-COMM-CONNECTOR", T("SEMANTIC", "TDCSEM2"), X("DIAG-COMM-SNREF", SHORT_NAME="svc_tk"))) + sdgs(B + ".tab") +
-                      admin_data(B + ".CD", B + ".CD.doggy"))
-    xml = _attrs(xml, "TABLE-ROW", B + ".tab.r1", 'OID="oid.r1" SEMANTIC="ROWSEM" IS-EXECUTABLE="true" IS-MANDATORY="false" IS-FINAL="true"')
-    xml = _before_end(xml, "TABLE-ROW", B + ".tab.r1",
-                      sdgs(B + ".tab.r1") + audience(B) + X("FUNCT-CLASS-REFS", X("FUNCT-CLASS-REF", ID_REF=B + ".fc1")) +
-                      X("STATE-TRANSITION-REFS", X("STATE-TRANSITION-REF", ID_REF=B + ".SC.cheer")) +
-                      X("PRE-CONDITION-STATE-REFS", X("PRE-CONDITION-STATE-REF", ID_REF=B + ".SC.happy")) + admin_data(B + ".CD", B + ".CD.doggy"))
-    xml = xml.replace('<TABLE-ROW ID="ksbase.tab.r1" OID="oid.r1" SEMANTIC="ROWSEM" IS-EXECUTABLE="true" IS-MANDATORY="false" IS-FINAL="true"><SHORT-NAME>r1</SHORT-NAME>',
-                      '<TABLE-ROW ID="ksbase.tab.r1" OID="oid.r1" SEMANTIC="ROWSEM" IS-EXECUTABLE="true" IS-MANDATORY="false" IS-FINAL="true"><SHORT-NAME>r1</SHORT-NAME>'
-                      '<LONG-NAME>row one</LONG-NAME><DESC><p>row desc</p></DESC>', 1)
-    xml = _attrs(xml, "REQUEST", B + ".rq_all", 'OID="oid.rq_all"')
-    xml = _before_end(xml, "REQUEST", B + ".rq_all", admin_data(B + ".CD", B + ".CD.doggy") + sdgs(B + ".rq_all"))
-    xml = _attrs(xml, "POS-RESPONSE", B + ".pr_all", 'OID="oid.pr_all"')
-    xml = _before_end(xml, "POS-RESPONSE", B + ".pr_all", admin_data(B + ".CD", B + ".CD.doggy") + sdgs(B + ".pr_all"))
-    xml = _attrs(xml, "FUNCT-CLASS", B + ".fc1", 'OID="oid.fc1"')
-    xml = _before_end(xml, "FUNCT-CLASS", B + ".fc1", admin_data(B + ".CD", B + ".CD.doggy"))
-    xml = _attrs(xml, "BASE-VARIANT", B, 'OID="oid.ksbase"')
-    xml = _attrs(xml, "DIAG-LAYER-CONTAINER", "KS", 'OID="oid.KS"')
-    # an SDG inside a parameter, a DIAG-DATA-DICTIONARY-SPEC level ADMIN-DATA and SDGS
-    xml = xml.replace('<SHORT-NAME>v_u8</SHORT-NAME><LONG-NAME>a byte</LONG-NAME><DESC><p>param desc</p></DESC>',
-                      '<SHORT-NAME>v_u8</SHORT-NAME><LONG-NAME>a byte</LONG-NAME><DESC><p>param desc</p></DESC>' + sdgs(B + ".v_u8"), 1)
+    if s.on("svc_oid", "DiagService.oid"):
+        xml = _attrs(xml, "DIAG-SERVICE", B + ".svc_all", 'OID="oid.svc_all"')
+    if s.on("svc_flags", "DiagService.is_mandatory_raw"):
+        xml = _attrs(xml, "DIAG-SERVICE", B + ".svc_all", 'DIAGNOSTIC-CLASS="STARTCOMM" IS-MANDATORY="true" IS-EXECUTABLE="false" IS-FINAL="true"')
+    if s.on("svc_cyclic", "DiagService.is_cyclic_raw"):
+        xml = _attrs(xml, "DIAG-SERVICE", B + ".svc_all", 'IS-CYCLIC="true" IS-MULTIPLE="true"')
+    if s.on("job"):
+        if s.on("job_attrs", "SingleEcuJob.is_mandatory_raw"):
+            xml = _attrs(xml, "SINGLE-ECU-JOB", B + ".job", 'OID="oid.job" SEMANTIC="JOBSEM" IS-MANDATORY="false" IS-EXECUTABLE="true" IS-FINAL="false"')
+        xml = _before_end(xml, "SINGLE-ECU-JOB", B + ".job",
+                          s.opt("job_params", "SingleEcuJob.input_params", job_params(B)) + s.opt("job_audience", "SingleEcuJob.audience", audience(B)) +
+                          s.opt("job_sdgs", "SingleEcuJob.sdgs", sdgs(B + ".job")))
+        if s.on("job_progcode_extras", "ProgCode.library_refs"):
+            xml = xml.replace("<REVISION>1</REVISION></PROG-CODE></PROG-CODES>",
+                              "<REVISION>1</REVISION><ENCRYPTION>none</ENCRYPTION><ENTRYPOINT>run</ENTRYPOINT>" +
+                              X("LIBRARY-REFS", X("LIBRARY-REF", ID_REF=B + ".LIB.lib1")) + "</PROG-CODE></PROG-CODES>", 1)
+    if s.on("dop_oid", "DataObjectProperty.oid"):
+        xml = _attrs(xml, "DATA-OBJECT-PROP", B + ".u8", 'OID="oid.u8"')
+    xml = _after_names(xml, "DATA-OBJECT-PROP", B + ".u8", s.opt("dop_admin", "DataObjectProperty.admin_data", AD) + s.opt("dop_sdgs", "DataObjectProperty.sdgs", sdgs(B + ".u8")))
+    if s.on("struct_attrs", "Structure.is_visible_raw"):
+        xml = _attrs(xml, "STRUCTURE", B + ".st_item", 'OID="oid.st_item" IS-VISIBLE="true"')
+    xml = _after_names(xml, "STRUCTURE", B + ".st_item", s.opt("struct_admin", "Structure.admin_data", AD) + s.opt("struct_sdgs", "Structure.sdgs", sdgs(B + ".st_item")))
+    if s.on("dtc_dop"):
+        if s.on("dtc_dop_attrs", "DtcDop.is_visible_raw"):
+            xml = _attrs(xml, "DTC-DOP", B + ".dtcs", 'OID="oid.dtcs" IS-VISIBLE="true"')
+        if s.on("dtc_linked", "DtcDop.linked_dtc_dops_raw"):
+            xml = _before_end(xml, "DTC-DOP", B + ".dtcs",
+                              X("LINKED-DTC-DOPS", X("LINKED-DTC-DOP", X("NOT-INHERITED-DTC-SNREFS", X("NOT-INHERITED-DTC-SNREF", SHORT_NAME="e1")),
+                                                     X("DTC-DOP-REF", ID_REF=B + ".dtcs2"))))
+        if s.on("dtc_attrs", "DiagnosticTroubleCode.is_temporary_raw"):
+            xml = _attrs(xml, "DTC", B + ".DTC.d1", 'OID="oid.d1" IS-TEMPORARY="true"')
+        if s.on("dtc_sdgs", "DiagnosticTroubleCode.sdgs"):
+            xml = _before_end(xml, "DTC", B + ".DTC.d1", sdgs(B + ".d1"))
+        if s.on("dtc_ref", "DtcDop.dtcs_raw<OdxLinkRef>"):
+            xml = xml.replace(f'<DTC ID="{B}.DTC.e1">', f'<DTC-REF ID-REF="{B}.DTC.d2"/><DTC ID="{B}.DTC.e1">', 1)
+    if s.on("field_attrs", "Field.is_visible_raw"):
+        for tag, ident in (("STATIC-FIELD", "sf"), ("DYNAMIC-LENGTH-FIELD", "dlf"), ("END-OF-PDU-FIELD", "eopf"), ("DYNAMIC-ENDMARKER-FIELD", "emf")):
+            xml = _attrs(xml, tag, f"{B}.{ident}", f'OID="oid.{ident}" IS-VISIBLE="false"')
+    if s.on("mux_attrs", "Multiplexer.is_visible_raw"):
+        xml = _attrs(xml, "MUX", f"{B}.mx", 'OID="oid.mx" IS-VISIBLE="false"')
+    if s.on("envdata_attrs", "EnvironmentData.oid"):
+        xml = _attrs(xml, "ENV-DATA-DESC", f"{B}.envdesc", 'OID="oid.envdesc"')
+        xml = _attrs(xml, "ENV-DATA", f"{B}.env_all", 'OID="oid.env_all"')
+    if s.on("table"):
+        if s.on("table_oid", "Table.oid"):
+            xml = _attrs(xml, "TABLE", B + ".tab", 'OID="oid.tab"')
+        xml = _before_end(xml, "TABLE", B + ".tab",
+                          s.opt("table_row_ref", "Table.table_rows_raw<OdxLinkRef>", X("TABLE-ROW-REF", ID_REF=B + ".tab2.q1")) +
+                          s.opt("table_connectors", "Table.table_diag_comm_connectors",
+                                X("TABLE-DIAG-COMM-CONNECTORS", X("TABLE-DIAG-COMM-CONNECTOR", T("SEMANTIC", "TDCSEM"), X("DIAG-COMM-REF", ID_REF=B + ".svc_min")),
+                                  X("TABLE-DIAG-COMM-CONNECTOR", T("SEMANTIC", "TDCSEM2"), X("DIAG-COMM-SNREF", SHORT_NAME="svc_tk")))) +
+                          s.opt("table_sdgs", "Table.sdgs", sdgs(B + ".tab")) + s.opt("table_admin", "Table.admin_data", AD))
+        if s.on("row_attrs", "TableRow.is_executable_raw"):
+            xml = _attrs(xml, "TABLE-ROW", B + ".tab.r1", 'OID="oid.r1" SEMANTIC="ROWSEM" IS-EXECUTABLE="true" IS-MANDATORY="false" IS-FINAL="true"')
+        xml = _before_end(xml, "TABLE-ROW", B + ".tab.r1",
+                          s.opt("row_sdgs", "TableRow.sdgs", sdgs(B + ".tab.r1")) +
+                          s.opt("row_refs", "TableRow.audience", audience(B) + X("FUNCT-CLASS-REFS", X("FUNCT-CLASS-REF", ID_REF=B + ".fc1")) +
+                                X("STATE-TRANSITION-REFS", X("STATE-TRANSITION-REF", ID_REF=B + ".SC.cheer")) +
+                                X("PRE-CONDITION-STATE-REFS", X("PRE-CONDITION-STATE-REF", ID_REF=B + ".SC.happy"))) +
+                          s.opt("row_admin", "TableRow.admin_data", AD))
+        if s.on("row_names", "TableRow.long_name"):
+            xml = _after_names(xml, "TABLE-ROW", B + ".tab.r1", "<LONG-NAME>row one</LONG-NAME><DESC><p>row desc</p></DESC>")
+    if s.on("request_oid", "Request.oid"):
+        xml = _attrs(xml, "REQUEST", B + ".rq_all", 'OID="oid.rq_all"')
+        xml = _attrs(xml, "POS-RESPONSE", B + ".pr_all", 'OID="oid.pr_all"')
+    xml = _before_end(xml, "REQUEST", B + ".rq_all", s.opt("request_admin", "Request.admin_data", AD) + s.opt("request_sdgs", "Request.sdgs", sdgs(B + ".rq_all")))
+    xml = _before_end(xml, "POS-RESPONSE", B + ".pr_all", s.opt("response_admin", "Response.admin_data", AD) + s.opt("response_sdgs", "Response.sdgs", sdgs(B + ".pr_all")))
+    if s.on("fc_oid", "FunctionalClass.oid"):
+        xml = _attrs(xml, "FUNCT-CLASS", B + ".fc1", 'OID="oid.fc1"')
+    xml = _before_end(xml, "FUNCT-CLASS", B + ".fc1", s.opt("fc_admin", "FunctionalClass.admin_data", AD))
+    if s.on("layer_oid", "DiagLayerRaw.oid"):
+        xml = _attrs(xml, "BASE-VARIANT", B, 'OID="oid.ksbase"')
+    if s.on("category_oid", "DiagLayerContainer.oid"):
+        xml = _attrs(xml, "DIAG-LAYER-CONTAINER", "KS", 'OID="oid.KS"')
+    if s.on("param_sdgs", "ValueParameter.sdgs"):
+        xml = xml.replace('<SHORT-NAME>v_u8</SHORT-NAME><LONG-NAME>a byte</LONG-NAME><DESC><p>param desc</p></DESC>',
+                          '<SHORT-NAME>v_u8</SHORT-NAME><LONG-NAME>a byte</LONG-NAME><DESC><p>param desc</p></DESC>' + sdgs(B + ".v_u8"), 1)
     i = xml.index("<DIAG-DATA-DICTIONARY-SPEC>", xml.index(f'<BASE-VARIANT ID="{B}"'))
     j = xml.index("</DIAG-DATA-DICTIONARY-SPEC>", i)
-    xml = xml[:i] + "<DIAG-DATA-DICTIONARY-SPEC>" + admin_data(B + ".CD", B + ".CD.doggy") + xml[i + len("<DIAG-DATA-DICTIONARY-SPEC>"):j] + sdgs(B + ".ddds") + xml[j:]
+    xml = (xml[:i] + "<DIAG-DATA-DICTIONARY-SPEC>" + s.opt("ddds_admin", "DiagDataDictionarySpec.admin_data", AD) +
+           xml[i + len("<DIAG-DATA-DICTIONARY-SPEC>"):j] + s.opt("ddds_sdgs", "DiagDataDictionarySpec.sdgs", sdgs(B + ".ddds")) + xml[j:])
     return xml
 
 
-def finish_cs(xml: str) -> str:
-    xml = _attrs(xml, "COMPARAM-SUBSET", "KSCS", 'OID="oid.KSCS"')
-    xml = _attrs(xml, "COMPARAM", "KSCS.cp_simple", 'OID="oid.cp_simple"')
-    xml = xml.replace('<LONG-NAME>simple comparam</LONG-NAME>', '<LONG-NAME>simple comparam</LONG-NAME><DESC><p>cp desc</p></DESC>', 1)
+def finish_cs(xml: str, s: "Sel") -> str:
+    if s.on("cs_oid", "ComparamSubset.oid"):
+        xml = _attrs(xml, "COMPARAM-SUBSET", "KSCS", 'OID="oid.KSCS"')
+        xml = _attrs(xml, "COMPARAM", "KSCS.cp_simple", 'OID="oid.cp_simple"')
+    if s.on("cs_comparam_desc", "Comparam.description"):
+        xml = xml.replace('<LONG-NAME>simple comparam</LONG-NAME>', '<LONG-NAME>simple comparam</LONG-NAME><DESC><p>cp desc</p></DESC>', 1)
     return xml
 
 
-def finish_c(xml: str) -> str:
-    xml = _attrs(xml, "COMPARAM-SPEC", "KSC", 'OID="oid.KSC"')
+def finish_c(xml: str, s: "Sel") -> str:
+    if s.on("c_oid", "ComparamSpec.oid"):
+        xml = _attrs(xml, "COMPARAM-SPEC", "KSC", 'OID="oid.KSC"')
+        xml = _attrs(xml, "PROT-STACK", "KSC.stack1", 'OID="oid.stack1"')
     xml = xml.replace("<SHORT-NAME>KSC</SHORT-NAME>", "<SHORT-NAME>KSC</SHORT-NAME><LONG-NAME>kitchen sink spec</LONG-NAME>" + desc("spec desc", ext=False) +
-                      admin_data("KSC.CD", "KSC.CD.doggy") + company_datas("KSC") + sdgs("KSC"), 1)
-    xml = _attrs(xml, "PROT-STACK", "KSC.stack1", 'OID="oid.stack1"')
-    xml = xml.replace("<SHORT-NAME>stack1</SHORT-NAME>", "<SHORT-NAME>stack1</SHORT-NAME><LONG-NAME>stack one</LONG-NAME><DESC><p>stack desc</p></DESC>", 1)
+                      s.opt("c_admin", "ComparamSpec.admin_data", admin_data("KSC.CD", "KSC.CD.doggy") + company_datas("KSC")) +
+                      s.opt("c_sdgs", "ComparamSpec.sdgs", sdgs("KSC")), 1)
+    if s.on("c_protstack_names", "ProtStack.long_name"):
+        xml = xml.replace("<SHORT-NAME>stack1</SHORT-NAME>", "<SHORT-NAME>stack1</SHORT-NAME><LONG-NAME>stack one</LONG-NAME><DESC><p>stack desc</p></DESC>", 1)
     return xml
 
 
-def files() -> Dict[str, str]:
-    """{file name: XML text} of the kitchen-sink database."""
+def files(off: Iterable[str] = ()) -> Dict[str, str]:
+    """{file name: XML text} of the kitchen-sink database without the features in `off`."""
+    s = Sel(off)
     return {
-        "KS.odx-d": finish_ks(container(container_ks())),
-        "KSLIB.odx-d": container(container_lib()),
-        "KSCS.odx-cs": finish_cs(comparam_subset(subset())),
-        "KSC.odx-c": finish_c(comparam_spec(spec())),
+        "KS.odx-d": finish_ks(container(container_ks(s)), s),
+        "KSLIB.odx-d": container(container_lib(s)),
+        "KSCS.odx-cs": finish_cs(comparam_subset(subset(s)), s),
+        "KSC.odx-c": finish_c(comparam_spec(spec(s)), s),
     }
 
 
@@ -525,9 +741,9 @@ def index_xml(short_name: str = "kitchen_sink") -> str:
     return ('<?xml version="1.0" encoding="UTF-8"?>\n<CATALOG F-DTD-VERSION="ODX-2.2.0">' + T("SHORT-NAME", short_name) + "<ABLOCKS/></CATALOG>")
 
 
-def members() -> Dict[str, bytes]:
-    """All members of the kitchen-sink PDX archive, ODX documents first."""
-    out: Dict[str, bytes] = {n: x.encode("utf-8") for n, x in files().items()}
+def members(off: Iterable[str] = ()) -> Dict[str, bytes]:
+    """All members of the kitchen-sink PDX archive (ODX documents first, then auxiliary files, then index.xml)."""
+    out: Dict[str, bytes] = {n: x.encode("utf-8") for n, x in files(off).items()}
     out.update(aux_files())
     out["index.xml"] = index_xml().encode("utf-8")
     return out
